@@ -1,11 +1,12 @@
-import Traph
+import Proofs.Trace
 /-! C18 — a torn or truncated write history is refused or opens consistent. The model keeps the
     program-ordered write log; `cutOpen` rebuilds both stores from any prefix of it (plus some bytes of a
     torn append) and applies the open-time checks. Proved so far: exactly the torn appends are refused,
     with the library's own error; in-place rewrites cannot be torn; a cut on a write boundary always
-    opens. (`C18_subset` — the cut state is below the final state in the heap order, hence reports only
-    pages and links the completed history reports — follows from the per-write monotonicity that
-    Proofs/LeOps establishes per request and is being lifted to single writes; see DESIGN §7 C18.) -/
+    opens. `C18_subset`: every cut of the write log of every history replays to files below the completed history
+    in the heap order (per single write: Proofs/Trace*), hence reports only pages and links the completed
+    history reports. Walk safety on cut states (pointers in range, pointee before pointer) is tied by the
+    crash-cut harness and stated in DESIGN §7 C18. -/
 namespace Traph.Props
 open Traph
 
@@ -39,6 +40,44 @@ theorem C18_opens_prefix (ram : State) (full : List Write) (k : Nat) (s : State)
     by_cases hw : w.isAppend (replay (full.take k)) = true
     · simp [hk, hw, h1, h2] at h; subst h; simp
     · simp [hk, hw, h1, h2] at h; subst h; simp
+
+/-- SUBSET, FOR EVERY CUT OF EVERY HISTORY: take any history of write requests on a fresh index (any
+    constructor rules) and cut its program-ordered write sequence after any number `k` of writes —
+    including inside the constructor, between the two header writes, between a node's head block and
+    its tail blocks, between a pointee and the pointer to it, between out-list and in-list. The rebuilt
+    files are below the completed history in the heap order: every stored block is the same block with
+    at most more flags set and more pointers filled in, every stub is the same stub. -/
+theorem C18_subset (cfg : Config) (dflt : Rule) (rules : List (Bytes × Rule)) (ops : List Op)
+    (hop : ∀ op ∈ ops, ∀ d rs, op ≠ .clear d rs) :
+    let sf := (State.fresh cfg dflt rules []).1.run ops
+    ∀ k, k ≤ sf.log.length → Files.Le (replay ((sf.log.reverse).take k)) sf.files :=
+  C18_fresh_cut_le cfg dflt rules ops hop
+
+/-- hence the cut reports only pages and links the completed history also reports: a block flagged as a
+    page in the cut is a page block of the final state with the same stem bytes and parent pointer
+    (so the same LRU), and every link stub of the cut is a stub of the final state -/
+theorem C18_reports_subset (cfg : Config) (dflt : Rule) (rules : List (Bytes × Rule)) (ops : List Op)
+    (hop : ∀ op ∈ ops, ∀ d rs, op ≠ .clear d rs) (k : Nat) :
+    let sf := (State.fresh cfg dflt rules []).1.run ops
+    let cut := replay ((sf.log.reverse).take k)
+    k ≤ sf.log.length →
+    (∀ (i : Nat) (c : Cell), cut.trie[i]? = some c → c.flags.page = true →
+        i < sf.trie.size ∧ (sf.cell i).flags.page = true ∧ (sf.cell i).chunk = c.chunk ∧
+        (sf.cell i).parent = c.parent) ∧
+    (∀ (i : Nat) (b : Stub), cut.links[i]? = some b → sf.links[i]? = some b) :=
+  C18_fresh_reports cfg dflt rules ops hop k
+
+/-- the model's own reopen of a boundary cut succeeds and yields a state below the completed history -/
+theorem C18_cut_opens_below (s0 : State) (hg : GoodLog s0) (hl : Live s0) (ops : List Op)
+    (hop : ∀ op ∈ ops, ∀ d rs, op ≠ .clear d rs) (ram : State) :
+    let sf := s0.run ops
+    ∀ k, k ≤ sf.log.length - s0.log.length →
+      ∃ st, cutOpen ram sf.log.reverse (s0.log.length + k) 0 = .ok st ∧ st ⊑ sf :=
+  C18_cutOpen_le s0 hg hl ops hop ram
+
+/-- the ghost log is faithful: replaying the whole log of any history gives exactly the two stores -/
+theorem C18_log_faithful (cfg : Config) (dflt : Rule) (rules : List (Bytes × Rule)) : GoodLog (State.fresh cfg dflt rules []).1 :=
+  goodLog_fresh cfg dflt rules
 
 example : (cutOpen {} [.hdr 0, .linkHdr, .trieAppend {}] 2 5) = .error .traph := by simp [cutOpen, openCut, replay, Files.apply, Write.isAppend]
 
